@@ -14,6 +14,7 @@ Pipeline:
      digits in bases 2 and 16 (the f32 pre-filter of the half test).
 """
 import json
+import os
 import framework as fw
 
 MODES = ["Zero", "Away", "Up", "Down", "HalfEven", "HalfAway"]
@@ -56,6 +57,8 @@ def cover(e):
         cs.append("sign:neg" if a < 0 else "sign:pos")
         if p == 1:
             cs.append("precision-1")
+        if p == 0:
+            cs.append("precision-unlimited")
         if ex >= 0:
             cs.append("x:integer")
         elif ex + d > 0:
@@ -64,7 +67,7 @@ def cover(e):
             cs.append("x:below-one")
         else:
             cs.append("x:below-1/B")
-            if -ex > p + d:
+            if p != 0 and -ex > p + d:
                 cs.append("x:more-leading-zeros-than-precision")
         if ex + d < -1 and op in ("round", "to_int", "fract"):
             cs.append("split-shortcut")
@@ -74,7 +77,7 @@ def cover(e):
             cs.append("flag:" + e["out"]["v"]["flag"])
         if op == "with_precision":
             q = e["q"]
-            cs.append("q:unlimited" if q == 0 else "q:grow" if q >= p else "q:shrink-noop" if q >= d else "q:shrink")
+            cs.append("q:unlimited" if q == 0 else "q:grow" if (p != 0 and q >= p) else "q:shrink-noop" if q >= d else "q:shrink")
     elif op in ROPS:
         cs.append("ty:" + e["ty"])
         cs.append("sign:neg" if fw.intval(e["x"]["num"]) < 0 else "sign:pos")
@@ -97,6 +100,9 @@ def nontrivial(e):
 
 
 def status(ctx, fid):
+    # development aid (like VERIF_REPO): model the repaired code before the finding entry is flipped to fixed
+    if fid in os.environ.get("VERIF_ASSUME_FIXED", "").split(","):
+        return "fixed"
     for k in ctx.known:
         if k["id"] == fid:
             return k.get("status")
@@ -106,7 +112,7 @@ def status(ctx, fid):
 def witnesses(ctx, ids):
     out = []
     for k in ctx.known:
-        if k["id"] in ids and k.get("status") == "open":
+        if k["id"] in ids and status(ctx, k["id"]) == "open":
             for w in (k.get("witnesses") or [k["witness"]]):
                 w = dict(w)
                 w["src"] = "wit"
@@ -148,6 +154,7 @@ def run(ctx):
         return ctx.finish()
 
     f04_open = status(ctx, "F04") != "fixed"
+    f90_open = status(ctx, "F90") != "fixed"
     modes = fw.tla_set(MODES)
     # 1. monitor definitions == native brute-force definitions
     cfg = fw.write_cfg(ctx.path("MC_RoundOpsDef.cfg"), invariants=["Agree"],
@@ -159,27 +166,35 @@ def run(ctx):
     ops_scope = ctx.pick([203, 302, 1002], [204, 303, 1003, 1601])
     ctx.scope.update({"RoundTables": {"base*100+max fraction digits": prim_scope, "integer": "-IMax..IMax",
                                       "ratio denominators": "1..12 both signs"},
-                      "FloatSplit": {"base*100+maxprec": ops_scope, "exponent": "-(p+4)..2", "SplitFix": not f04_open}})
+                      "FloatSplit": {"base*100+maxprec": ops_scope, "exponent": "-(p+4)..2", "SplitFix": not f04_open,
+                                     "WPFix": not f90_open}})
     cfg = fw.write_cfg(ctx.path("Gen_C10_prim.cfg"), invariants=["Correct", "FilterSound", "Emit"],
                        constants={"Scope": fw.tla_set(prim_scope), "Modes": modes, "IMax": ctx.pick(4, 9), "DenMax": 12})
     r1 = ctx.mc("mc-gen-prim", "C10", "Gen_C10_prim.tla", cfg, workers=WORKERS, libs=LIBS, timeout=2400,
                 required_actions=["PickFract", "PickRatio", "RunFract", "RunRatio"])
     cfg = fw.write_cfg(ctx.path("Gen_C10_ops.cfg"), invariants=["Correct", "Emit"],
                        constants={"Scope": fw.tla_set(ops_scope), "Modes": modes, "Ops": fw.tla_set(FOPS), "ExpLow": 4,
-                                  "SplitFix": "FALSE" if f04_open else "TRUE", "Stride": ctx.pick(5, 12),
+                                  "SplitFix": "FALSE" if f04_open else "TRUE",
+                                  "WPFix": "FALSE" if f90_open else "TRUE", "Stride": ctx.pick(8, 20),
                                   "Seed": ctx.seed % 997})
     r2 = ctx.mc("mc-gen-ops", "C10", "Gen_C10_ops.tla", cfg, workers=WORKERS, libs=LIBS, timeout=2400,
                 required_actions=["Pick", "RunInteger", "RunTiny", "RunSplit", "RunWithPrecision"])
     if f04_open:
         cfg = fw.write_cfg(ctx.path("MC_F04.cfg"), invariants=["F04Absent"],
                            constants={"Scope": "{1002}", "Modes": '{"HalfAway"}', "Ops": '{"round", "to_int"}', "ExpLow": 4,
-                                      "SplitFix": "FALSE"})
+                                      "SplitFix": "FALSE", "WPFix": "TRUE"})
         r = ctx.mc("mc-f04-by-model", "C10", "FloatSplit.tla", cfg, workers=2, libs=LIBS, expect_ok=False)
         ctx.notes.append("F04 exhibited by model checking FloatSplit(SplitFix=FALSE): %s" % bool(r.invariant_violated))
+    if f90_open:
+        cfg = fw.write_cfg(ctx.path("MC_F90.cfg"), invariants=["F90Absent"],
+                           constants={"Scope": "{203}", "Modes": '{"Zero"}', "Ops": '{"with_precision"}', "ExpLow": 1,
+                                      "SplitFix": "TRUE", "WPFix": "FALSE"})
+        r = ctx.mc("mc-f90-by-model", "C10", "FloatSplit.tla", cfg, workers=2, libs=LIBS, expect_ok=False)
+        ctx.notes.append("F90 exhibited by model checking FloatSplit(WPFix=FALSE): %s" % bool(r.invariant_violated))
 
     # 3. spec -> impl
     c1, n1 = write_cases(ctx, "prim", r1.tagged("GEN"))
-    c2, n2 = write_cases(ctx, "ops", r2.tagged("GEN"), extra=witnesses(ctx, ("F04",)))
+    c2, n2 = write_cases(ctx, "ops", r2.tagged("GEN"), extra=witnesses(ctx, ("F04", "F90")))
     if n1 == 0 or n2 == 0:
         raise fw.ToolError("generator produced no cases")
     tr1 = ctx.drive(drive, ["--cases", c1, "--n", "0"], "trace-gen-prim.ndjson")
@@ -199,14 +214,14 @@ def run(ctx):
         enrich(ev)
     req = ["op:" + o for o in FOPS + ROPS + ["round_fract", "round_ratio"]]
     req += ["base:%d" % b for b in (2, 3, 10, 16, 36)] + ["mode:" + m for m in MODES]
-    req += ["src:gen", "src:rnd", "ty:RBig", "ty:Relaxed", "sign:neg", "sign:pos", "precision-1", "x:integer",
+    req += ["src:gen", "src:rnd", "ty:RBig", "ty:Relaxed", "sign:neg", "sign:pos", "precision-1", "precision-unlimited", "x:integer",
             "x:point-inside-digits", "x:below-one", "x:below-1/B", "x:more-leading-zeros-than-precision", "split-shortcut",
             "flag:Exact", "flag:NoOp", "flag:AddOne", "flag:SubOne", "q:unlimited", "q:grow", "q:shrink", "q:shrink-noop",
             "adj:NoOp", "adj:AddOne", "adj:SubOne", "class:tie", "class:zero-fraction", "class:half", "class:below-1/B",
             "class:integer", "class:mixed", "kind:half", "kind:near-half", "kind:all-max", "kind:tie", "kind:near-tie",
             "kind:integer", "kind:below-one", "br:integer", "br:tiny", "br:split", "br:split-tiny", "br:shift", "br:shrink",
             "br:keep"]
-    if f04_open:
+    if f04_open or f90_open:
         req.append("src:wit")
     if not ctx.quick:
         req.append("huge-digits")
